@@ -315,6 +315,24 @@ struct World
                 double t = pick_time(H.m, (int)o.I(1), o.I(2), o.D(0));
                 classify_time(H.m, t);
                 int ord = (int)o.I(3);
+                if (kind == OP_EVAL_ENUM && (o.I(3) & 64))
+                {
+                    // orders far beyond the named enumerators, through the enum overloads: still "order exceeds the degree"
+                    static const int big[] = {7, 255, 256, 257, 1000, 65536, 65537, INT_MAX};
+                    int kb = big[(size_t)(((o.I(2) % 8) + 8) % 8)];
+                    if (kb >= H.m.nc)
+                    {
+                        Vec z = H.p->evaluate(t, static_cast<SplineTrajectory::Deriv>(kb));
+                        check_same(z, eval_checked(H, t, kb), "enum(large order)", "plain", t, kb);
+                        int hcopy = hint[0];
+                        Vec zh = H.p->evaluate(t, &hcopy, static_cast<SplineTrajectory::Deriv>(kb));
+                        check_same(zh, z, "hinted enum(large order)", "enum", t, kb);
+                        Vec zs = (*H.p)[0].evaluate(0.0, static_cast<SplineTrajectory::Deriv>(kb));
+                        for (int d = 0; d < D; ++d) SIM_CHECK(zs(d) == 0.0, "zero_above_degree", "Segment::evaluate(enum " << kb << ") is not zero");
+                        ctx.count("probe.enum_order_beyond_enumerators");
+                    }
+                    break;
+                }
                 if (kind == OP_EVAL_ENUM)
                 {
                     ord = ((ord % 7) + 7) % 7;
@@ -412,7 +430,7 @@ struct World
                 int k = pick_handle(o.I(0), true);
                 if (k < 0) break;
                 Handle &H = h[k];
-                int n = (int)(((o.I(1) % 9) + 9) % 9);
+                int n = (int)((((o.I(1) & 15) % 9) + 9) % 9);
                 Rng r((uint64_t)o.I(2), 0xba);
                 std::vector<double> ts;
                 for (int q = 0; q < n; ++q)
@@ -423,10 +441,14 @@ struct World
                     ts.push_back(pick_time(H.m, tmq, iq, fq));
                 }
                 int ord = (int)(((o.I(3) % (H.m.nc + 2)) + (H.m.nc + 2)) % (H.m.nc + 2));
+                // a batch may contain a sample without a defined time (missing data); the other samples must not notice.
+                // (only below the binary-search threshold: see DESIGN s11.4 O5 for what a NaN time does to larger ones)
+                if (n >= 2 && H.m.S() < 32 && (o.I(1) & 16)) { ts[(size_t)r.below((uint64_t)n)] = std::nan(""); ctx.count("probe.batch_with_nan_sample"); }
                 auto res = (ord <= 6 && (o.I(3) & 16)) ? H.p->evaluate(ts, static_cast<SplineTrajectory::Deriv>(ord)) : H.p->evaluate(ts, ord);
                 SIM_CHECK((int)res.size() == n, "batch_size", "batch of " << n << " times returned " << res.size() << " values");
                 for (int q = 0; q < n; ++q)
                 {
+                    if (std::isnan(ts[q])) continue;
                     Vec b = eval_checked(H, ts[q], ord);
                     check_same(res[q], b, "batch", "plain", ts[q], ord);
                 }
@@ -594,6 +616,32 @@ struct World
                 Model m;
                 m.init = true;
                 m.C = H.m.C;
+                if ((o.I(1) & 7) == 2 || (o.I(1) & 7) == 3)
+                {
+                    // same shape, same breakpoints; only the coefficient blocks of a sub-range of segments change.
+                    // Two (variant 3: many) such updates follow each other WITHOUT an evaluation in between.
+                    Rng rr((uint64_t)o.I(2), 0x9a);
+                    static const int bursts[] = {2, 3, 255, 256, 257, 512};
+                    int reps = (o.I(1) & 7) == 2 ? 2 : bursts[(size_t)rr.below(6)];
+                    Model mm = H.m;
+                    for (int rep = 0; rep < reps; ++rep)
+                    {
+                        int S0 = mm.S();
+                        int lo = (int)rr.below((uint64_t)S0), hi = lo + (int)rr.below((uint64_t)(S0 - lo)) ;
+                        for (int sg = lo; sg <= hi; ++sg)
+                            for (int q = 0; q < mm.nc; ++q)
+                                for (int d = 0; d < D; ++d) mm.C(sg * mm.nc + q, d) = rr.real(-2.0, 2.0) + (q == 0 ? 4.0 * (sg + 1) : 0.0);
+                        H.p->update(mm.b, mm.C, mm.nc);
+                    }
+                    H.m = std::move(mm);
+                    check_meta(H);
+                    ctx.count(reps > 3 ? "probe.update_burst_without_evaluation" : "probe.partial_updates_without_evaluation");
+                    changed = true;
+                    ctx.mark_nontrivial();
+                    // every piece is looked at afterwards
+                    for (int sg = 0; sg < H.m.S(); ++sg) eval_checked(H, pick_time(H.m, 3, sg, 0.5), 1 % H.m.nc);
+                    break;
+                }
                 if ((o.I(1) & 7) == 1)
                 {
                     // the caller passes the object's own members back in (arguments alias the state being replaced)
@@ -682,7 +730,7 @@ struct World
                 int nc = 1 + (int)(((o.I(3) % max_nc) + max_nc) % max_nc);
                 std::vector<double> b = gen_breaks((uint64_t)o.I(4), S, 0);
                 Mat C = gen_coeffs((uint64_t)o.I(4), S, nc);
-                int nkinds = fixed ? 5 : 4;
+                int nkinds = fixed ? 6 : 5;
                 int fk = (int)(((o.I(1) % nkinds) + nkinds) % nkinds);
                 const char *what = "";
                 switch (fk)
@@ -691,6 +739,18 @@ struct World
                 case 1: b.resize(1); what = "one_breakpoint"; break;
                 case 2: C.conservativeResize(C.rows() + 1, D); C.row(C.rows() - 1).setZero(); what = "one_row_too_many"; break;
                 case 3: if (C.rows() > 0) C.conservativeResize(C.rows() - 1, D); what = "one_row_too_few"; break;
+                case 4:
+                {
+                    // a declared coefficient count so large that segments*count does not fit 32 bits; the rows cannot match
+                    static const int huge[] = {1 << 30, (1 << 30) + 1, INT_MAX, 1 << 29};
+                    nc = huge[(size_t)(((o.I(3) % 4) + 4) % 4)];
+                    S = 4;
+                    b = gen_breaks((uint64_t)o.I(4), S, 0);
+                    C.resize((o.I(3) & 4) ? 4 : 0, D);
+                    C.setZero();
+                    what = "huge_coeff_count";
+                    break;
+                }
                 default: nc = max_nc + 1 + (int)(((o.I(3) % 3) + 3) % 3); C = gen_coeffs((uint64_t)o.I(4), S, nc); what = "too_many_coeffs_for_fixed_order"; break;
                 }
                 // (non-positive coefficient counts are not generated: the statement does not cover them)
@@ -777,7 +837,14 @@ inline Plan gen_plan(uint64_t seed, uint64_t index, Tier tier, int profile, int 
         if (type == 0 && r.chance(0.5)) return (int)r.range(7, 10); // straddle the static table limit of 8
         return (int)r.range(1, max_nc);
     };
-    p.ci = {type, pick_nc(), pick_S(), (int64_t)r.below(1u << 30), (int64_t)r.below(10)};
+    p.ci = {type, pick_nc(), pick_S(), (int64_t)r.below(1u << 30), (int64_t)r.below(10), 0};
+    if (type == 0 && r.chance(0.1))
+    {
+        // well beyond the range the statement enumerates: up to 30 coefficients per piece (factorials above 2^53)
+        p.ci[5] = 1;
+        max_nc = 30;
+        p.ci[1] = r.range(20, 30);
+    }
     int nops = (int)r.range(4, tier == Tier::Thorough ? 60 : 40);
     // swarm: enable a random subset of fault kinds for this run
     bool f_hint = r.chance(0.7), f_update = r.chance(profile == 1 ? 0.95 : 0.4), f_copy = r.chance(profile == 1 ? 0.9 : 0.2),
@@ -815,7 +882,7 @@ inline Plan gen_plan(uint64_t seed, uint64_t index, Tier tier, int profile, int 
         switch (o.kind)
         {
         case OP_EVAL: case OP_EVAL_ENUM:
-            o.i = {(int64_t)r.below(kHandles), (int64_t)r.below(8), (int64_t)r.below(64), (int64_t)r.below(16)};
+            o.i = {(int64_t)r.below(kHandles), (int64_t)r.below(8), (int64_t)r.below(64), (int64_t)r.below(16) | (r.chance(0.1) ? 64 : 0)};
             o.d = {r.unit()};
             break;
         case OP_EVAL_HINT: case OP_HINT_SWEEP:
@@ -823,7 +890,7 @@ inline Plan gen_plan(uint64_t seed, uint64_t index, Tier tier, int profile, int 
             o.d = {r.unit()};
             break;
         case OP_HINT_CORRUPT: o.i = {(int64_t)r.below(kHints), (int64_t)r.below(9), (int64_t)r.below(kHandles), (int64_t)r.below(64)}; break;
-        case OP_EVAL_BATCH: o.i = {(int64_t)r.below(kHandles), (int64_t)r.below(9), (int64_t)r.below(1u << 30), (int64_t)r.below(32)}; break;
+        case OP_EVAL_BATCH: o.i = {(int64_t)r.below(kHandles), (int64_t)r.below(9) | (r.chance(0.15) ? 16 : 0), (int64_t)r.below(1u << 30), (int64_t)r.below(32)}; break;
         case OP_SEG_EVAL: case OP_SEG_META:
             o.i = {(int64_t)r.below(kHandles), (int64_t)r.below(4), (int64_t)r.below(64), (int64_t)r.below(8), (int64_t)r.below(32)};
             o.d = {r.unit()};
@@ -869,7 +936,7 @@ inline void exec_plan(const Plan &plan, RunCtx &ctx)
     int twin_every = plan.prop == "C11" ? 1 : 3;
     switch (type)
     {
-    case 0: { World<SplineTrajectory::PPolyND<DIM, Eigen::Dynamic>> w(ctx, 12, false, twin_every); w.run(plan); break; }
+    case 0: { World<SplineTrajectory::PPolyND<DIM, Eigen::Dynamic>> w(ctx, plan.CI(5) ? 30 : 12, false, twin_every); w.run(plan); break; }
     case 1: { World<SplineTrajectory::PPolyND<DIM, 4>> w(ctx, 4, true, twin_every); w.run(plan); break; }
     case 2: { World<SplineTrajectory::PPolyND<DIM, 6>> w(ctx, 6, true, twin_every); w.run(plan); break; }
     default: { World<SplineTrajectory::PPolyND<DIM, 8>> w(ctx, 8, true, twin_every); w.run(plan); break; }
